@@ -638,7 +638,7 @@ def run_tie(prop, spec, tier, seed):
                 oo = seqtie.run_stream(binary, [cand], "rt reset")[0]
                 return seqtie.first_diff(projected(prop, cand, expected(cand)), projected(prop, cand, oo)) is not None
             small = seqtie.ddmin(c[1:], fails)
-            small = [c[0]] + [x for x in small if x != c[0]]
+            small = simplify([c[0]] + [x for x in small if x != c[0]], fails)
             ee = expected(small)
             oo = seqtie.run_stream(binary, [small], "rt reset")[0]
             dd = seqtie.first_diff(projected(prop, small, ee), projected(prop, small, oo)) or (0, "?", "?")
@@ -653,6 +653,47 @@ def run_tie(prop, spec, tier, seed):
     res.extra["impl_mismatches"] = check(impl, "impl")
     res.extra["model_mismatches"] = check(model, "model")
     return res
+
+
+def simplify(ops, fails):
+    """canonicalise a shrunk history: regex levels become `.*`, arguments become short, handles are renumbered --
+    each step only if the history still fails"""
+    cur = list(ops)
+
+    def attempt(cand):
+        nonlocal cur
+        if cand != cur and fails(cand[1:]):
+            cur = cand
+            return True
+        return False
+
+    for i in range(1, len(cur)):
+        t = cur[i].split()
+        if t[1] in ("notify", "shrink", "exists"):
+            lv = [x for x in t[2].split("/") if x]
+            for j in range(len(lv)):
+                if lv[j].startswith("~") and lv[j] != "~.*":
+                    lv2 = lv[:j] + ["~.*"] + lv[j + 1:]
+                    t2 = t[:2] + ["/" + "/".join(lv2)] + t[3:]
+                    if attempt(cur[:i] + [" ".join(t2)] + cur[i + 1:]):
+                        lv = lv2
+                        t = t2
+        if t[1] == "notify":
+            sig = cur[0].split()[3]
+            short = {"v": "-", "i": "1", "t": "1", "s": "x", "r": "x", "is": "1,x"}[sig]
+            attempt(cur[:i] + [" ".join(t[:3] + [short])] + cur[i + 1:])
+    # renumber handles in order of appearance
+    ren = {}
+    out = []
+    for l in cur:
+        t = l.split()
+        if t[1] == "sub":
+            ren.setdefault(t[2], str(len(ren) + 1))
+        if t[1] in ("sub", "unsub", "inval") and t[2] in ren:
+            t[2] = ren[t[2]]
+        out.append(" ".join(t))
+    attempt(out)
+    return cur
 
 
 def replay(prop, spec, path):
